@@ -190,7 +190,7 @@ def case_from_json(j):
 def run(ctx):
     ok = ctx.prove("C05")
     engine.install(need_parser=True)
-    n = 300 if ctx.tier == "quick" else 6000
+    n = 200 if ctx.tier == "quick" else 6000
     cases = []
     cdir = CORPUS / "C05"
     for p in sorted(cdir.glob("*.json")) if cdir.exists() else []:
